@@ -40,6 +40,8 @@ type Fault struct {
 	Site      string `json:"site,omitempty"`
 	Nth       int    `json:"nth,omitempty"`
 	AtMs      int    `json:"at_ms,omitempty"`
+	// OnCmd/Nth: fire right after a node has processed the Nth command of this name (its reply is still on its way)
+	OnCmd string `json:"on_cmd,omitempty"`
 	// AfterStart >= 1: fire AfterStart-1 steps after Start() of the service returned (1 = immediately)
 	AfterStart int `json:"after_start,omitempty"`
 	// layout change: slots [From, To] move (with their data) to node To2
@@ -98,6 +100,7 @@ type redisWorld struct {
 	migActive  int
 	migSeq     int
 	crashSteps []int64
+	crashSlots []map[int]bool // per crash: the slots the crashed master owned, was migrating away or importing
 	crashTimes []time.Time
 
 	endPhase         int
@@ -362,6 +365,14 @@ func (w *redisWorld) fireFaults() {
 				w.startedStep = w.rt.Step
 			}
 			due = w.startedStep >= 0 && w.rt.Step-w.startedStep >= int64(f.AfterStart-1)
+		case f.OnCmd != "":
+			n := 0
+			for _, le := range w.env.Cluster.Log {
+				if len(le.Args) > 0 && strings.EqualFold(string(le.Args[0]), f.OnCmd) {
+					n++
+				}
+			}
+			due = n >= f.Nth && f.Nth > 0
 		case f.AtMs > 0:
 			due = w.firstSend >= 0 && time.Since(w.firstSendAt) >= time.Duration(f.AtMs)*time.Millisecond
 		default:
@@ -463,6 +474,19 @@ func (w *redisWorld) inject(f *Fault) bool {
 		if f.Kind == "failover-crash" {
 			w.crashSteps = append(w.crashSteps, w.rt.Step)
 			w.crashTimes = append(w.crashTimes, time.Now())
+			owned := map[int]bool{}
+			for s, o := range c.Owner {
+				if int(o) == n.MasterOf {
+					owned[s] = true
+				}
+			}
+			for s := range c.Nodes[n.MasterOf].Migrating {
+				owned[s] = true
+			}
+			for s := range c.Nodes[n.MasterOf].Importing {
+				owned[s] = true
+			}
+			w.crashSlots = append(w.crashSlots, owned)
 		}
 		c.Failover(f.Node, f.Kind == "failover")
 		return true
